@@ -61,6 +61,7 @@ func (tm *tMap) markFieldFiltered(fieldName string) {
 // trackedMaps defines a type for tracking maps while processing event.
 type trackedMaps struct {
 	tracked map[uintptr]*tMap // a map of all tracked maps using each map's addr as the index
+	parent  *trackedMaps      // set while a nested map is filtered: the tracked maps of the enclosing map
 	l       sync.RWMutex
 }
 
@@ -127,6 +128,17 @@ func (maps *trackedMaps) getTracked(ptr uintptr) (*tMap, bool) {
 	defer maps.l.RUnlock()
 	tm, ok := maps.tracked[ptr]
 	return tm, ok
+}
+
+// trackedHereOrAbove reports if the map is being tracked, either by these
+// tracked maps or by the ones of an enclosing map.
+func (maps *trackedMaps) trackedHereOrAbove(ptr uintptr) bool {
+	for m := maps; m != nil; m = m.parent {
+		if _, ok := m.getTracked(ptr); ok {
+			return true
+		}
+	}
+	return false
 }
 
 // unfiltered returns all the maps which haven't been tracked as filtered
@@ -307,13 +319,14 @@ func (maps *trackedMaps) processUnfiltered(ctx context.Context, ef *Filter, filt
 				// itself (see trackTaggable): it's filtered on its own, so
 				// the fields its tags classified aren't filtered again as
 				// unclassified data.
-				if _, ok := maps.getTracked(field.Pointer()); ok {
+				if maps.trackedHereOrAbove(field.Pointer()) {
 					break
 				}
 				newMaps, err := newTrackedMaps(&tMap{value: field})
 				if err != nil {
 					return fmt.Errorf("%s: unable to filter map: %w", op, err)
 				}
+				newMaps.parent = maps
 				if err := newMaps.processUnfiltered(ctx, ef, filterOverrides, opt...); err != nil {
 					return fmt.Errorf("%s: unable to process maps found in map: %w", op, err)
 				}
